@@ -116,12 +116,39 @@ def ev(e: ast.AST, env: dict):
         raise CannotEval(f"call {u(e)[:60]}")
     if isinstance(e, ast.BinOp) and type(e.op) in _ARITH:
         a, b = ev(e.left, env), ev(e.right, env)
+        if isinstance(e.op, ast.Add) and ((isinstance(a, list) and isinstance(b, list)) or (isinstance(a, str) and isinstance(b, str)) or (isinstance(a, tuple) and isinstance(b, tuple))):
+            return a + b
         if not (isinstance(a, (int, float)) and isinstance(b, (int, float))):
             raise CannotEval(f"{u(e)[:60]}: non-numeric operands")
         try:
             return _ARITH[type(e.op)](a, b)
         except (ZeroDivisionError, OverflowError) as x:
             raise CannotEval(f"{u(e)[:60]}: {type(x).__name__}")
+    if isinstance(e, (ast.ListComp, ast.GeneratorExp, ast.SetComp)) and all(not g.is_async for g in e.generators):
+        out = []
+
+        def rec(i, env_):
+            if i == len(e.generators):
+                out.append(ev(e.elt, env_))
+                return
+            g = e.generators[i]
+            it = ev(g.iter, env_)
+            if not isinstance(it, (list, tuple, set, str, dict, range)):
+                raise CannotEval(f"{u(e)[:60]}: iterable")
+            for v in it:
+                env2 = dict(env_)
+                if isinstance(g.target, ast.Name):
+                    env2[g.target.id] = v
+                elif isinstance(g.target, ast.Tuple) and all(isinstance(t, ast.Name) for t in g.target.elts) and isinstance(v, (list, tuple)) and len(v) == len(g.target.elts):
+                    for t, x in zip(g.target.elts, v):
+                        env2[t.id] = x
+                else:
+                    raise CannotEval(f"{u(e)[:60]}: target")
+                if all(ev(c, env2) for c in g.ifs):
+                    rec(i + 1, env2)
+
+        rec(0, dict(env))
+        return set(out) if isinstance(e, ast.SetComp) else out
     if isinstance(e, ast.JoinedStr):
         out = []
         for v in e.values:
